@@ -193,7 +193,8 @@ def run_ctors(run, drv, pools):
                     if size < n * item or (where != "long" and size != n * item):
                         problems.append(f"file size {size} for {n} elements of {item} bytes")
                     back = M.from_filename(f, dtype=dt, shape=torch.Size(shape))
-                    if not torch.equal(back.reshape(-1).to(torch.float64), flat.to(torch.float64)):
+                    # bit-wise (`empty` over a former file shows whatever bytes were there: possibly NaN patterns)
+                    if back.reshape(-1).numpy().tobytes() != flat.numpy().tobytes():
                         problems.append("from_filename reads back other values than the tensor handed back")
                 # another process: same memory
                 if not problems:
